@@ -1,5 +1,5 @@
 """bycycle.utils.dataframes.epoch_df — C13 (per-epoch table construction), C15 (frame)."""
-from . import contract
+from . import contract, frame_result
 from .features_burst import SHAPE_COLS, sample_cols
 from .burst import FEATS
 from vf.values import BOOL, INT, REAL, XR
@@ -34,3 +34,103 @@ def _epoch_cases():
 contract('bycycle.utils.dataframes.epoch_df', cases=_epoch_cases(), modifies=[])
 
 contract('bycycle.utils.dataframes.get_extrema_df', inline=True)
+
+
+# ------------------------------------------------------------------------------------------------ limit_df (C18, C15)
+def _limit_cases():
+    out = []
+    for centre in ('peak', 'trough'):
+        for method, extra in (('cycles', {f: XR for f in FEATS}), ('amp', {'burst_fraction': XR})):
+            cols = dict(SHAPE_COLS)
+            cols.update(extra)
+            cols['is_burst'] = BOOL
+            samples = sample_cols(centre)
+            for c in samples:
+                cols[c] = INT
+            side = 'trough' if centre == 'peak' else 'peak'
+            last, nxt = "df['sample_last_%s']" % side, "df['sample_next_%s']" % side
+            for has_start in (False, True):
+                for has_stop in (False, True):
+                    for reset in (True, False):
+                        s0 = 'start' if has_start else '0'
+                        # C18: a cycle lies entirely inside the window when its opening side extremum is at or after
+                        # start and its closing one at or before stop (times = samples / fs); entirely outside when it
+                        # ends before start or begins after stop
+                        inside = "%s[i] >= %s * fs" % (last, s0) + (" and %s[i] <= stop * fs" % nxt if has_stop else "")
+                        outside = "%s[i] < %s * fs" % (nxt, s0) + (" or %s[i] > stop * fs" % last if has_stop else "")
+                        bad = ["fs < 0"]
+                        if has_start:
+                            bad.append("start < 0" + (" or start > stop" if has_stop else ""))
+                        if has_stop:
+                            bad.append("stop < 0" if not has_start else "stop < start")
+                        shift = ("int(round(fs * %s))" % s0) if reset else "0"
+                        out.append(dict(
+                            label='%s,%s,start=%s,stop=%s,reset=%s' % (centre, method, has_start, has_stop, reset),
+                            params={'df': ('frame', cols), 'fs': REAL, 'start': REAL if has_start else 'none',
+                                    'stop': REAL if has_stop else 'none', 'reset_indices': ('const', reset)},
+                            # table invariant (C01, ensured by compute_features): a cycle closes after it opens
+                            requires=["forall(i, 0 <= i < len(df), %s[i] < %s[i])" % (last, nxt)],
+                            raises={'ValueError': " or ".join("(%s)" % b for b in bad)},
+                            ensures=["selects_between(result, df, arrdef(i, len(df), %s), arrdef(i, len(df), not (%s)), %r, %s)"
+                                     % (inside, outside, tuple(samples) if reset else (), shift)]))
+    return out
+
+
+contract('bycycle.utils.dataframes.limit_df', cases=_limit_cases(), modifies=[], split_ensures=True,
+         result=frame_result(lambda env: {c: a.ty for c, a in env['df'].cols.items()}))
+
+
+# ------------------------------------------------------------------------------------------------ limit_signal (C18)
+def _limit_signal_cases():
+    out = []
+    for has_start in (False, True):
+        for has_stop in (False, True):
+            conds = (["times[i] >= start"] if has_start else []) + (["times[i] < stop"] if has_stop else [])
+            mask = "arrdef(i, len(times), %s)" % (" and ".join(conds) or "True")
+            bad = []
+            if has_start:
+                bad.append("start < 0" + (" or start > stop" if has_stop else ""))
+            if has_stop:
+                bad.append("stop < 0" if not has_start else "stop < start")
+            out.append(dict(
+                label='start=%s,stop=%s' % (has_start, has_stop),
+                params={'times': ('arr', REAL), 'sig': ('arr', REAL), 'start': REAL if has_start else 'none',
+                        'stop': REAL if has_stop else 'none'},
+                requires=["len(times) == len(sig)"],
+                raises=({'ValueError': " or ".join("(%s)" % b for b in bad)} if bad else {}),
+                # C18: exactly the samples with start <= t < stop, in order, signal and times alike
+                ensures=["selects_between(result[0], sig, %s, %s)" % (mask, mask),
+                         "selects_between(result[1], times, %s, %s)" % (mask, mask)]))
+    return out
+
+
+contract('bycycle.utils.timeseries.limit_signal', cases=_limit_signal_cases(), modifies=[])
+
+
+# ------------------------------------------------------------------------------------------------ split_samples_df (C18)
+def _split_cases():
+    out = []
+    for centre in ('peak', 'trough'):
+        for method, extra in (('cycles', {f: XR for f in FEATS}), ('amp', {'burst_fraction': XR})):
+            cols = dict(SHAPE_COLS)
+            cols.update(extra)
+            cols['is_burst'] = BOOL
+            keep = list(cols)
+            samples = sample_cols(centre)
+            for c in samples:
+                cols[c] = INT
+            out.append(dict(
+                label='%s,%s' % (centre, method), params={'df_features': ('frame', cols)},
+                # C18: the sample_* columns move to the second table, everything else stays in the first (which IS the
+                # input object - the function pops the columns out of it, as documented), no value altered
+                ensures=["result[0] is df_features",
+                         "len(result[0]) == len(old(df_features)) and len(result[1]) == len(old(df_features))",
+                         "ncols(result[0]) == %d and ncols(result[1]) == %d" % (len(keep), len(samples))] +
+                        ["forall(i, 0 <= i < len(result[0]), same(result[0]['%s'][i], old(df_features)['%s'][i]))" % (c, c)
+                         for c in keep] +
+                        ["forall(i, 0 <= i < len(result[1]), same(result[1]['%s'][i], old(df_features)['%s'][i]))" % (c, c)
+                         for c in samples]))
+    return out
+
+
+contract('bycycle.utils.dataframes.split_samples_df', cases=_split_cases(), modifies=['df_features'])
